@@ -342,7 +342,7 @@ impl std::fmt::Display for Scad {
                 write!(f, ");")?;
             }
             ScadOp::Import { file, convexity } => {
-                write!(f, "import({:?}, {});", file, convexity)?;
+                write!(f, "import(file={:?}, convexity={});", file, convexity)?;
             }
             ScadOp::Projection { cut } => {
                 writeln!(f, "projection(cut={}) {{", cut)?;
